@@ -114,40 +114,64 @@ def cseqOf (raw : Bytes) : Nat :=
   | none => 0
   | some l => natOfDigits (((l.drop key.length).dropWhile (· == 32)).takeWhile isDigit) 0
 
-/-- Verdict on an observed TCP stream: it must parse into complete units, its frames must be
-    exactly the frames the media goroutine was given (in order), its responses must answer
-    the requests (CSeq) in order. -/
-def judgeStream (s : Bytes) (frames : List (UInt8 × Bytes)) (cseqs : List Nat) : String :=
-  match parse s with
-  | none => "torn-stream"
-  | some us =>
-    let fs := us.filterMap (fun u => match u with
-      | .frame c p => some (c, p)
-      | .response _ => none)
-    let rs := us.filterMap (fun u => match u with
-      | .frame _ _ => none
-      | .response r => some (cseqOf r))
-    if fs != frames then "frames-differ"
-    else if rs != cseqs then "responses-differ"
-    else "ok"
+/-- `a` is a subsequence of `b` (order kept, gaps allowed) -/
+def isSubseq : List (UInt8 × Bytes) → List (UInt8 × Bytes) → Bool
+  | [], _ => true
+  | _ :: _, [] => false
+  | x :: xs, y :: ys => if x == y then isSubseq xs ys else isSubseq (x :: xs) ys
 
-/-- the complete units at the head of a stream (the rest is a unit still in flight, or garbage) -/
-def parsePrefix : Nat → Bytes → List Unit
-  | 0, _ => []
-  | fuel + 1, s =>
-    match nextUnit s with
-    | none => []
-    | some (u, rest) => u :: parsePrefix fuel rest
-
-/-- Verdict on the stream of a run that did not complete (a request was never answered, so not
-    every unit can be expected): the complete units that did arrive must still be the delivered
-    packets, in order — a frame whose payload is not the packet handed to the media goroutine is a
-    torn frame, whatever else went wrong. -/
-def judgePartial (s : Bytes) (frames : List (UInt8 × Bytes)) : String :=
-  let us := parsePrefix (s.length + 1) s
-  let fs := us.filterMap (fun u => match u with
+def framesOf (us : List Unit) : List (UInt8 × Bytes) :=
+  us.filterMap (fun u => match u with
     | .frame c p => some (c, p)
     | .response _ => none)
-  if fs.isPrefixOf frames then "incomplete" else "torn-frame"
+
+def cseqsOf (us : List Unit) : List Nat :=
+  us.filterMap (fun u => match u with
+    | .frame _ _ => none
+    | .response r => some (cseqOf r))
+
+/-- The PROPERTY verdict on an observed TCP stream: it must parse into complete units, and every
+    complete frame on the wire must be one of the packets handed to the media goroutine, in the
+    order they were handed over.  (A lost frame or a lost response is not tearing: `exactStream`.) -/
+def judgeStream (s : Bytes) (frames : List (UInt8 × Bytes)) : String :=
+  match parse s with
+  | none => "torn-stream"
+  | some us => if isSubseq (framesOf us) frames then "ok" else "torn-frame"
+
+/-- The correspondence verdict (model: the LTS delivers everything): the frames are EXACTLY the
+    packets delivered, the responses answer exactly the requests (CSeq), both in order. -/
+def exactStream (s : Bytes) (frames : List (UInt8 × Bytes)) (cseqs : List Nat) : String :=
+  match parse s with
+  | none => "unparsed"
+  | some us =>
+    if framesOf us != frames then "frames-lost"
+    else if cseqsOf us != cseqs then "responses-differ"
+    else "ok"
+
+/-- the complete units at the head of a stream, and what is left (a unit still in flight, or garbage) -/
+def parsePrefix : Nat → Bytes → List Unit × Bytes
+  | 0, s => ([], s)
+  | fuel + 1, s =>
+    match nextUnit s with
+    | none => ([], s)
+    | some (u, rest) => let (us, r) := parsePrefix fuel rest; (u :: us, r)
+
+/-- could these bytes be the beginning of a unit that is still being received? -/
+def inFlight (rest : Bytes) : Bool :=
+  match rest with
+  | [] => true
+  | b :: _ => b == 0x24 || rest.isPrefixOf rtspPrefix || rtspPrefix.isPrefixOf rest
+
+/-- Verdict on the stream of a run that did not complete (a request was never answered, or the
+    run was cut when the first wrong unit arrived, so not every unit can be expected): the complete
+    units that did arrive must still be delivered packets, in order, and what follows them must be
+    the beginning of a frame or of a response — a frame whose payload is not a packet handed to
+    the media goroutine is a torn frame, bytes that start neither are a torn stream, whatever else
+    went wrong. -/
+def judgePartial (s : Bytes) (frames : List (UInt8 × Bytes)) : String :=
+  let (us, rest) := parsePrefix (s.length + 1) s
+  if !isSubseq (framesOf us) frames then "torn-frame"
+  else if !inFlight rest then "torn-stream"
+  else "incomplete"
 
 end IpcHub.InterleaveSpec
